@@ -30,7 +30,8 @@ class AmpGenTransformer(Transformer):
         return True
 
     def checkfixed(self, lines):
-        val = int(lines[0])
+        # The grammar allows any signed number as flag, e.g. "2.0"
+        val = float(lines[0])
         # AmpGen convention: 0 is free
         return val > 0
 
